@@ -17,10 +17,10 @@ import (
 func init() {
 	register(&PropRules{
 		ID:      "C05",
-		Explain: "The saslauthd server fails closed — structural part, on every CFG path of sasl.(*Server).handleConnection and the codec: (C05.1) the callback is invoked at most once, outside any loop, only under req.Decode(conn)==nil and with the four decoded fields; (C05.2) exactly one resp.Encode(conn) on every path, on the connection itself, and conn.Close is deferred before any exit; (C05.3) at the Encode call resp.Result is the constant false, or the callback's first result under callback err==nil; (C05.4) every reply is decodable: the part handed to the length-prefix encoder by Response.Encode is bounded by the limit the decoders enforce (MaxRequestLength); (C05.5) vocabulary agreement: Encode writes \"OK\"/\"NO\" [+ \" \" + message], Decode maps exactly \"OK\"→true, \"NO\"→false, anything else → error, and takes the message from index 3; (C05.6) connection ownership: Run starts one goroutine per accepted connection with that connection, the handler writes no shared state, Server fields are written only by the constructors; (C05.7) the decoder's unproven bounds checks are exactly the hand-discharged ones. The C reader's side of C05.5 is decided by C20/C13.4. Round 3: the reply is not written under a connection deadline armed before req.Decode or the callback ran (C05.2); the decode loop reaches Scan() only with the part counter below len(parts) (C13.1 shared). Round 5: decoder completeness (C05.1, rule instance shared with C13.1): the frame decoder returns nil only if every one of the len(parts) requested parts was filled from the stream — the part counter starts at 0, every iteration that goes round again stored exactly one part at the counter and advanced it by one, and every exit that may report success knows that very counter >= len(parts); decided for the bufio.Scanner form and for a decoder built on io.ReadFull / io.ReadAtLeast / binary.Read (per part: two length bytes read completely, error checked; limit before the payload; exactly that many bytes read completely, error checked; no read once all parts are stored).",
+		Explain: "The saslauthd server fails closed — structural part, on every CFG path of sasl.(*Server).handleConnection and the codec: (C05.1) the callback is invoked at most once, outside any loop, only under req.Decode(conn)==nil and with the four decoded fields; (C05.2) exactly one resp.Encode(conn) on every path, on the connection itself, and conn.Close is deferred before any exit; (C05.3) at the Encode call resp.Result is the constant false, or the callback's first result under callback err==nil; (C05.4) every reply is decodable: the part handed to the length-prefix encoder by Response.Encode is bounded by the limit the decoders enforce (MaxRequestLength); (C05.5) vocabulary agreement: Encode writes \"OK\"/\"NO\" [+ \" \" + message], Decode maps exactly \"OK\"→true, \"NO\"→false, anything else → error, and takes the message from index 3; (C05.6) connection ownership: Run starts one goroutine per accepted connection with that connection, the handler writes no shared state, Server fields are written only by the constructors; (C05.7) the decoder's unproven bounds checks are exactly the hand-discharged ones. The C reader's side of C05.5 is decided by C20/C13.4. Round 3: the reply is not written under a connection deadline armed before req.Decode or the callback ran (C05.2); the decode loop reaches Scan() only with the part counter below len(parts) (C13.1 shared). Round 5: decoder completeness (C05.1, rule instance shared with C13.1): the frame decoder returns nil only if every one of the len(parts) requested parts was filled from the stream — the part counter starts at 0, every iteration that goes round again stored exactly one part at the counter and advanced it by one, and every exit that may report success knows that very counter >= len(parts); decided for the bufio.Scanner form and for a decoder built on io.ReadFull / io.ReadAtLeast / binary.Read (per part: two length bytes read completely, error checked; limit before the payload; exactly that many bytes read completely, error checked; no read once all parts are stored). Seed round 5: (C05.8, rule instance shared with C13.2) each request field is the corresponding part of the message exactly as the frame decoder produced it — what the callback is handed is what was on the wire.",
 		Undec:   []string{"fragmentation and timing behaviour of bufio.Scanner and the socket (run-time)", "actual concurrent executions", "the compiled PAM module's run-time behaviour (its source is C20)"},
 		Run:     runC05,
-		Floors:  map[string]int{"C05.1": 1, "C05.2": 2, "C05.3": 1, "C05.4": 1, "C05.5": 2, "C05.6": 2},
+		Floors:  map[string]int{"C05.1": 1, "C05.2": 2, "C05.3": 1, "C05.4": 1, "C05.5": 2, "C05.6": 2, "C05.8": 1},
 	})
 	register(&PropRules{
 		ID:      "C13",
